@@ -278,8 +278,10 @@ def run_property(mod, tier, seed):
            "not_decided": getattr(mod, "NOT_DECIDED", [])}
     ev = {"property_id": prop, "tier": tier, "seed": seed, "level": level, "coverage": cov,
           "assumptions": assumptions, "wall_s": round(wall, 2), "violations": len(violations)}
-    os.makedirs(os.path.join(VERIF, "evidence"), exist_ok=True)
-    with open(os.path.join(VERIF, "evidence", prop + ".json"), "w") as f:
+    # evidence is only ever written for /repo itself; runs against a scratch copy (VP_REPO=...) go elsewhere
+    evdir = os.path.join(VERIF, "evidence") if os.path.realpath(REPO) == "/repo" else os.path.join(WORK, "evidence_scratch")
+    os.makedirs(evdir, exist_ok=True)
+    with open(os.path.join(evdir, prop + ".json"), "w") as f:
         json.dump(ev, f, indent=1)
     print(f"{prop}: {'HELD' if rc == 0 else 'VIOLATION' if rc == 1 else 'UNDECIDED/INFRA'} "
           f"obligations={obligations} discharged={discharged} bounded={b_obl} groups={len(groups_ev)} wall={wall:.1f}s")
